@@ -39,6 +39,7 @@ class ExtractAll(Contract):
     stable_attrs = ("files", "worker", "q", "fp", "password_protected", "_filePassed", "filename", "id", "is_directory", "is_socket", "is_symlink", "is_junction", "reporterd")
     frame_preserving = ("put", "register_filelike", "exists", "append", "start", "Thread")
     noraise = ("put", "register_filelike", "append")
+    int_functions = ("totimestamp",)  # ArchiveTimestamp.totimestamp() returns a number (never None); its value is arbitrary here
     assumptions = (
         "abstract mode: pathlib / os.getcwd / MemIO construction are pure; ArchiveFile properties are stable",
         "get_sanitized_output_path(name, base) returns only paths lexically inside canonical(base) without '..' (its contract, proved separately)",
@@ -149,10 +150,21 @@ class ExtractAll(Contract):
         def noinv(c, Lp):
             return []
 
+        def restore_asserts(c, Lp):
+            # C02: whenever the member has a stored modification time (totimestamp() returned), that very value is
+            # handed to os.utime - whatever the value is (also 0.0 = the epoch)
+            evs = c.eng.trace[Lp.trace_mark:]
+            stamps = [e for e in evs if e.kind == "call" and e.name.endswith("totimestamp")]
+            ut = [e for e in evs if e.kind == "call" and e.name.endswith("utime")]
+            if not stamps:
+                return [("no-time-restored-without-a-stored-time", len(ut) == 0)]
+            t = ut[-1].kwargs.get("times") if ut else None
+            return [("stored-time-is-restored", bool(len(ut) == 1 and isinstance(t, tuple) and len(t) == 2 and t[0] is stamps[-1].result and t[1] is stamps[-1].result))]
+
         return {
             "py7zr:SevenZipFile._extract#loop0": LoopSpec("for-f", inv0, cells={"target_files": "opq", "target_dirs": "opq"}),
             "py7zr:SevenZipFile._extract#loop1": LoopSpec("for-target_dir", noinv),
-            "py7zr:SevenZipFile._extract#loop2": LoopSpec("for-outfilename", noinv),
+            "py7zr:SevenZipFile._extract#loop2": LoopSpec("for-outfilename", noinv, asserts=restore_asserts),
         }
 
     def ensures(self, c, old, result, **b):
